@@ -5,7 +5,7 @@
    Proofs/C18*.v.  Arithmetic is exact (Q); binary64 rounding is outside the model. *)
 From Coq Require Import QArith List Bool Arith Permutation.
 From DV Require Import Model.C18Model.
-From DV Require Import Proofs.C18Lists Proofs.C18Tree Proofs.C18Monad Proofs.C18BD Proofs.C18FBD Proofs.C18PB Proofs.C18Coal Proofs.C18CC Proofs.C18Frame Proofs.C18Examples Proofs.C18Final.
+From DV Require Import Proofs.C18Lists Proofs.C18Tree Proofs.C18Monad Proofs.C18BD Proofs.C18FBD Proofs.C18PB Proofs.C18Coal Proofs.C18CC Proofs.C18Frame Proofs.C18Examples Proofs.C18Final Proofs.C18Labels.
 Import ListNotations.
 Open Scope nat_scope.
 
@@ -232,3 +232,60 @@ Theorem deterministic : forall (s : simcall) (script1 script2 : list draw),
   script1 = script2 -> run_sim s script1 = run_sim s script2.
 Proof. exact deterministic_proved. Qed.
 Print Assumptions deterministic.
+
+(* ---- wave 8: LABELS.  "N distinct taxa" read as pairwise distinct Taxon objects (above: NoDup
+   (leaf_taxa t), taxa are positions of the namespace) AND pairwise distinct labels; "the namespace
+   gains no duplicate label".  leaf_label ns' o = the label the final namespace holds at position o.
+   The label-in-use set of the taxon-assignment block is the label list of the NAMESPACE (not of
+   the pool that pop() drains) extended by every label minted. ---- *)
+Theorem bd_labels_distinct : forall (cs : bool) (P : bdp) (ns : list lab) (script : list draw)
+                                    (t : btree) (ns' : list lab) (r : rs),
+  1 <= p_n P -> NoDup ns ->
+  bd_sim true cs P ns script = Done (t, ns') r ->
+  (* the namespace still holds no label twice *)
+  NoDup ns' /\
+  (* it was only extended, and by labels it did not hold *)
+  (exists extra, ns' = ns ++ extra /\ forall a, In a extra -> ~ In a ns) /\
+  (* the labels on the N leaves are pairwise distinct *)
+  NoDup (map (leaf_label ns') (leaf_taxa t)).
+Proof. exact bd_labels_proved. Qed.
+Print Assumptions bd_labels_distinct.
+
+Theorem fast_bd_labels_distinct : forall (cs : bool) (P : bdp) (ns : list lab) (script : list draw)
+                                         (t : btree) (ns' : list lab) (r : rs),
+  1 <= p_n P -> NoDup ns ->
+  fbd_sim true cs P ns script = Done (t, ns') r ->
+  NoDup ns' /\
+  (exists extra, ns' = ns ++ extra /\ forall a, In a extra -> ~ In a ns) /\
+  NoDup (map (leaf_label ns') (leaf_taxa t)).
+Proof. exact fbd_labels_proved. Qed.
+Print Assumptions fast_bd_labels_distinct.
+
+(* successive simulations SHARING one namespace (any sizes: the second may need fewer, as many or
+   more taxa than the namespace holds after the first): the namespace stays duplicate-free and only
+   grows, the second tree's leaf labels are pairwise distinct, and the first tree's leaves still
+   denote the same pairwise distinct labels.  Satisfiable: bd_shared_namespace_example
+   (Proofs/C18Labels.v: N = 2 into ["t1"], then N = 3 on the namespace that call left). *)
+Theorem bd_shared_namespace : forall (cs : bool) (P1 P2 : bdp) (ns : list lab) (s1 s2 : list draw)
+                                     (t1 : btree) (ns1 : list lab) (r1 : rs) (t2 : btree) (ns2 : list lab) (r2 : rs),
+  1 <= p_n P1 -> 1 <= p_n P2 -> NoDup ns ->
+  bd_sim true cs P1 ns s1 = Done (t1, ns1) r1 ->
+  bd_sim true cs P2 ns1 s2 = Done (t2, ns2) r2 ->
+  NoDup ns2 /\ (exists e1 e2, ns1 = ns ++ e1 /\ ns2 = ns ++ e1 ++ e2) /\
+  NoDup (map (leaf_label ns2) (leaf_taxa t2)) /\
+  map (leaf_label ns2) (leaf_taxa t1) = map (leaf_label ns1) (leaf_taxa t1) /\
+  NoDup (map (leaf_label ns2) (leaf_taxa t1)).
+Proof. exact bd_shared_namespace_proved. Qed.
+Print Assumptions bd_shared_namespace.
+
+(* "distinct under the namespace's rule" for a case-INsensitive namespace is false of the code as it
+   stands (label-in-use test on exact strings): witness namespace ["t1"], N = 2, the namespace ends
+   as ["t1"; "T1"].  An observation OUTSIDE the property text (the Taxon objects and the label strings are
+   distinct; what a case-insensitive lookup can tell apart is not part of "N distinct taxa": DESIGN 11.7);
+   the harness's oracle compares label strings. *)
+Theorem bd_labels_distinct_under_case_rule_refuted :
+  exists P ns script t ns' r,
+    1 <= p_n P /\ NoDup (map lab_lower ns) /\
+    bd_sim true false P ns script = Done (t, ns') r /\ ~ NoDup (map lab_lower ns').
+Proof. exact bd_labels_case_rule_refuted_proved. Qed.
+Print Assumptions bd_labels_distinct_under_case_rule_refuted.
